@@ -9,11 +9,11 @@ Driver handlers for the two small tools (Cli/ToolArgs.lean, Cli/Tools.lean).
   <draws>   = #draws (0 v | 1 len ints…)*
 
   targs    tool <env> <argv>          tool: 0 = cnfshuffle, 1 = kthlist2pebbling.  The parse alone:
-             `OK help` | `OK error` | `OK sub <str:name> #rest <str>* extras` |
+             `OK help` | `OK error` | `OK sub <str:name> #rest <str>*` |
              `OK ns <in> <out> <seed> p v c verbose`   (<in>/<out> = 0 | 1 <str:path> | 2 ; <seed> = 0 | 1 <str>)
   tshuffle <env> <argv> <draws>       the process cnfshuffle
   tk2p     <env> <argv>               the process kthlist2pebbling
-             `OK ok <dest> <str:text>` (<dest> = 0 | 1 <str:path>) | `OK help` | `OK cliError <0 parser|1 reader> <str:pfx>` |
+             `OK ok <dest> <str:text>` (<dest> = 0 | 1 <str:path>) | `OK help` | `OK cliError <str:pfx>` |
              `OK silent` | `OK escaped <str:exc>` | `OK badDraws` | `OK sub` (tk2p: a transformation is selected)
 -/
 import CnfgenModel.Driver.Util
@@ -67,15 +67,14 @@ def fmtParse : Except (Stop Cli.Tools.Args) Cli.Tools.Args → String
   | .ok a => fmtArgs a
   | .error .help => "help"
   | .error .error => "error"
-  | .error (.sub n r _ ex) =>
-    "sub " ++ fmtStr n ++ " " ++ toString r.length ++ r.foldl (fun acc t => acc ++ " " ++ fmtStr t) "" ++ " " ++ fmtB ex
+  | .error (.sub n r _ _) =>
+    "sub " ++ fmtStr n ++ " " ++ toString r.length ++ r.foldl (fun acc t => acc ++ " " ++ fmtStr t) ""
 
 def fmtOutcome : Outcome → String
   | .ok .stdout t => "ok 0 " ++ fmtChars t
   | .ok (.file p) t => "ok 1 " ++ fmtStr p ++ " " ++ fmtChars t
   | .help => "help"
-  | .cliError .parser pfx => "cliError 0 " ++ fmtStr pfx
-  | .cliError .reader pfx => "cliError 1 " ++ fmtStr pfx
+  | .cliError _ pfx => "cliError " ++ fmtStr pfx
   | .silent => "silent"
   | .escaped e => "escaped " ++ fmtStr e
   | .badDraws => "badDraws"
